@@ -394,6 +394,17 @@ class EventDispatcher(object):
             #self.message_count += 1
 
             message_id = message.message_id
+            if message_id is None:
+                """
+                Messages published by this class always have a message_id, but
+                start events published directly to the event queue by clients
+                might not. The ID keys unacknowledged_messages and is reused as
+                the Task correlation ID, so several such messages in flight
+                would overwrite each other and Task responses with a None
+                correlation ID could not be handled, so generate an ID. Note
+                that unlike a real message_id it does not survive redelivery.
+                """
+                message_id = str(uuid.uuid4())
             self.unacknowledged_messages[message_id] = message
             self.state_engine.notify(item, message_id, message.redelivered)
             self.state_engine.task_dispatcher.schedule_orphaned_response_handler()
